@@ -526,6 +526,97 @@ def mode_blind(run, m, F, E, L, f):
                                    '(%d paths, %d searching)' % (nret, nsearch)), disc='one-unit operands', loc=fn_loc(f))
 
 
+def split_mode_blind(run, m, F, E, L):
+    """R09.8 for the split overloads: exact interpretation for a one-unit text and a one-unit separator with at least one split
+    allowed; a returning path without a search and without a decision on the case mode that text "X", separator "x" can take."""
+    specs = [('ST::string::split(char, unsigned long, ST::case_sensitivity_t) const', 'char'),
+             ('ST::string::split(char const*, unsigned long, ST::case_sensitivity_t) const', 'cstr'),
+             ('ST::string::split(ST::string const&, unsigned long, ST::case_sensitivity_t) const', 'string')]
+    for dem, form in specs:
+        f = find(m, F, dem)
+        if f is None:
+            continue
+
+        class XH(PartHooks):
+            unroll = 4
+            widen_on_entry = False
+        I = Interp(m, F, E, XH(m))
+        st = State()
+        this, ret, entry = string_scene(I, st, L, 'small', with_ret=False)
+        vec = I.fresh_ptr(st, 'result')
+        s = entry['size']
+        ok = st.assume_eq0(s - 1)
+        sep_unit = None
+        if form == 'char':
+            sep = I.fresh_int(st, 8, 'sep', lo=1, hi=0x7F)
+            sep_unit = sep.lin
+        elif form == 'cstr':
+            so = Obj('ext', Lin.const(2))
+            so.attrs['cstr_len'] = Lin.const(1)
+            st.objs['SEP'] = so
+            sep = PtrV('SEP')
+        else:
+            sepo = own.make_buffer(I, st, L, 'sep', 'small')
+            ok = ok and st.assume_eq0(st.flags['entry:sep']['size'] - 1)
+            sep = PtrV(sepo)
+        mx = I.fresh_int(st, 64, 'max_splits')
+        ok = ok and st.assume_ge0(I.as_u(st, mx) - 1)
+        cs = I.fresh_int(st, 32, 'cs', hi=1)
+        I.h.watch = cs.lin.single_atom()[0]
+        sto = entry['storage']
+        if not ok:
+            run.ob('R09.8', short(f.dem), None, 'scene with one-unit operands not built', disc=form, loc=fn_loc(f))
+            continue
+        try:
+            outs = I.run(I.start(f, [vec, PtrV(this), sep, mx, cs], st))
+        except Exception as e:
+            run.ob('R09.8', short(f.dem), None, 'not interpreted exactly: %s' % (str(e)[:80],), disc=form, loc=fn_loc(f))
+            continue
+        probs, und, nret, nsearch = [], [], 0, 0
+        for o in outs:
+            s2 = o.st
+            if o.kind != 'ret':
+                continue
+            nret += 1
+            if any(e[0] == 'search' for e in s2.events):
+                nsearch += 1
+                continue
+            if any(e[0] == 'cs-read' for e in s2.events):
+                continue
+            if any(e[0] == 'widen' for e in s2.events):
+                und.append('a returning path without a search runs through a loop that was abstracted')
+                continue
+            s3 = s2.clone()
+            tu = I.load(s3, None, PtrV(sto.obj, sto.off), 'i8', 1)
+            if form == 'char':
+                fl_ = sep_unit
+            elif form == 'cstr':
+                fu = I.load(s3, None, PtrV('SEP'), 'i8', 1)
+                fl_ = I.as_u(s3, fu) if isinstance(fu, IntV) else None
+            else:
+                fs = s3.flags['entry:sep']['storage']
+                fu = I.load(s3, None, PtrV(fs.obj, fs.off), 'i8', 1)
+                fl_ = I.as_u(s3, fu) if isinstance(fu, IntV) else None
+            tl_ = I.as_u(s3, tu) if isinstance(tu, IntV) else None
+            if tl_ is None or fl_ is None:
+                und.append('units of the operands not tracked')
+                continue
+            if not (s3.assume_eq0(tl_ - 0x58) and s3.assume_eq0(fl_ - 0x78)):
+                continue
+            wit = s3.find_model([tl_, fl_, cs.lin, I.as_u(s3, mx)], lambda v: v[0] == 0x58 and v[1] == 0x78 and v[3] >= 1)
+            if wit is not None:
+                probs.append('for a one-unit text and separator with a split allowed, the pieces are produced without a search and without the case '
+                             'mode having decided anything on that path: text "X" with separator "x" takes it under both modes, and only '
+                             'case_insensitive may cut; witness %s' % own.fmt_env(wit))
+            else:
+                und.append('a returning path without a search and without a decision on the case mode: no witness found')
+        if nret == 0:
+            und.append('no returning path explored')
+        run.ob('R09.8', short(f.dem), False if probs else (None if und else True),
+               probs[0] if probs else (und[0] if und else 'every returning path for one-unit operands searches with the requested mode or is decided by it '
+                                       '(%d paths, %d searching)' % (nret, nsearch)), disc=form + ' / one-unit operands', loc=fn_loc(f))
+
+
 def tokenize(run, m, F, E, L):
     f = find(m, F, 'ST::string::tokenize(char const*) const')
     run.need(f is not None, 'tokenize not found')
@@ -599,6 +690,7 @@ def check(run):
     run.need(L is not None, 'layout of ST::buffer<char> not recognised')
     run.floor('split overloads', splits(run, m, F, E, L), 3)
     run.floor('replace overloads', replace(run, m, F, E, L), 4)
+    split_mode_blind(run, m, F, E, L)
     tokenize(run, m, F, E, L)
     run.floor('members scanned for NUL-stopping primitives', nul_blind(run, m, F), 8)
     # R09.7: a tokenize that tests its units against a folded representation of the delimiter set (expected count zero on this tree)
